@@ -1373,6 +1373,132 @@ func doISN(p *policy, secrets []uint64) {
 	}
 }
 
+// linearity of ISN shares: Op and ScalarOp on the shares of two dealings, including combinations in which pieces cancel
+// (a sharing minus itself, scaling by zero and by the group order, two dealings from the same dealer randomness subtracted)
+func doISNLinear(p *policy, s1, s2 uint64) {
+	sc, err := try(func() (*isn.Scheme[S], error) { return isn.NewFiniteScheme[S](field, p.ac) })
+	if err != nil {
+		return // refusals are judged on the "isn" line
+	}
+	rngStream++
+	stream := rngStream
+	o1, df1, err1 := sc.DealAndRevealDealerFunc(isn.NewSecret[S](toy.FromInt(s1)), tr.Rng(seed, stream))
+	o2, df2, err2 := sc.DealAndRevealDealerFunc(isn.NewSecret[S](toy.FromInt(s2)), tr.Rng(seed, stream)) // the same dealer randomness
+	o3, df3, err3 := sc.DealAndRevealDealerFunc(isn.NewSecret[S](toy.FromInt(s2)), rng())
+	if err1 != nil || err2 != nil || err3 != nil {
+		return
+	}
+	// the maximal unqualified sets in a fixed order, and the piece vector of each dealing in that order
+	musc := [][]uint64{}
+	for k := range df1 {
+		musc = append(musc, sorted(u(k.List())))
+	}
+	sort.Slice(musc, func(i, j int) bool { return fmt.Sprint(musc[i]) < fmt.Sprint(musc[j]) })
+	pieceVec := func(df isn.DealerFunc[S]) []uint64 {
+		out := make([]uint64, len(musc))
+		for k, v := range df {
+			for i, m := range musc {
+				if fmt.Sprint(sorted(u(k.List()))) == fmt.Sprint(m) {
+					out[i] = v.Int()
+				}
+			}
+		}
+		return out
+	}
+	get := func(o *isn.DealerOutput[S]) map[uint64]*isn.Share[S] {
+		m := map[uint64]*isn.Share[S]{}
+		for _, id := range p.holders {
+			if sh, ok := o.Shares().Get(ID(id)); ok {
+				m[id] = sh
+			}
+		}
+		return m
+	}
+	a, b, c := get(o1), get(o2), get(o3)
+	qm1 := toy.FromInt(q - 1)
+	type combo struct {
+		name   string
+		f      func(id uint64) *isn.Share[S]
+		k1, k2 uint64 // the combination is k1 * first + k2 * second (second = dealing 2 or 3, see "snd")
+		snd    int
+	}
+	combos := []combo{
+		{"sum", func(id uint64) *isn.Share[S] { return a[id].Op(c[id]) }, 1, 1, 3},
+		{"diffSameRandomness", func(id uint64) *isn.Share[S] { return a[id].Op(b[id].ScalarOp(qm1)) }, 1, q - 1, 2},
+		{"minusItself", func(id uint64) *isn.Share[S] { return a[id].Op(a[id].ScalarOp(qm1)) }, 0, 0, 3},
+		{"timesZero", func(id uint64) *isn.Share[S] { return a[id].ScalarOp(toy.FromInt(0)) }, 0, 0, 3},
+		{"timesOrder", func(id uint64) *isn.Share[S] { return a[id].ScalarOp(field.Order()) }, 0, 0, 3},
+		{"timesTwoPlus", func(id uint64) *isn.Share[S] { return a[id].ScalarOp(toy.FromInt(2)).Op(c[id]) }, 2, 1, 3},
+	}
+	res := []map[string]any{}
+	for _, cb := range combos {
+		shares := map[uint64]*isn.Share[S]{}
+		shl := []map[string]any{}
+		panicked := ""
+		for _, id := range p.holders {
+			if a[id] == nil || b[id] == nil || c[id] == nil {
+				continue
+			}
+			sh, err := try(func() (*isn.Share[S], error) { return cb.f(id), nil })
+			if err != nil {
+				panicked = errStr(err)
+				continue
+			}
+			shares[id] = sh
+			idx, sv := []int{}, []uint64{}
+			for i, m := range musc {
+				for k, v := range sh.Value().Iter() {
+					if fmt.Sprint(sorted(u(k.List()))) == fmt.Sprint(m) {
+						idx = append(idx, i+1)
+						sv = append(sv, v.Int())
+					}
+				}
+			}
+			shl = append(shl, map[string]any{"id": id, "idx": idx, "v": sv})
+		}
+		recs := make([]map[string]any, len(p.subs))
+		adds := make([]map[string]any, len(p.subs))
+		for i, s := range p.subs {
+			sel := []*isn.Share[S]{}
+			for _, id := range s {
+				if sh, ok := shares[id]; ok {
+					sel = append(sel, sh)
+				}
+			}
+			r := map[string]any{"ok": false, "v": 0, "missing": len(sel) != len(s)}
+			if len(sel) == len(s) {
+				if v, err := tryV(sc.Reconstruct, sel); err == nil {
+					r["ok"], r["v"] = true, v.Value().Int()
+				}
+			}
+			recs[i] = r
+			ad := map[string]any{"tried": false, "ok": false, "vals": emptyU()}
+			if len(s) >= 2 && len(sel) == len(s) && sc.CanReconstruct(toIDs(s)...) {
+				qm := must(unanimity.NewUnanimityAccessStructure(idSet(s)))
+				ad["tried"] = true
+				vs := []uint64{}
+				ok := true
+				for _, sh := range sel {
+					as, err := try(func() (*additive.Share[S], error) { return sc.ConvertShareToAdditive(sh, qm) })
+					if err != nil {
+						ok = false
+						break
+					}
+					vs = append(vs, as.Value().Int())
+				}
+				ad["ok"] = ok
+				if ok {
+					ad["vals"] = vs
+				}
+			}
+			adds[i] = ad
+		}
+		res = append(res, map[string]any{"name": cb.name, "k1": cb.k1, "k2": cb.k2, "snd": cb.snd, "shares": shl, "rec": recs, "add": adds, "panic": panicked})
+	}
+	emit("isnlin", map[string]any{"pol": p.rec, "subs": p.subs, "musc": musc, "p1": pieceVec(df1), "p2": pieceVec(df2), "p3": pieceVec(df3),
+		"s1": s1, "s2": s2, "combos": res})
+}
+
 // ---- Tassa
 func doTassa(p *policy, secrets []uint64, pr interface{ Uint64N(uint64) uint64 }) {
 	ac := p.ac.(*hierarchical.HierarchicalConjunctiveThreshold)
@@ -1515,6 +1641,7 @@ func runC02(pols []*policy) {
 		}
 		if idsLE64(p.holders) && len(p.holders) <= 5 { // ISN pieces are keyed by 64-bit sets of identifiers
 			doISN(p, secrets[:2])
+			doISNLinear(p, secrets[0], secrets[1])
 		}
 	}
 }
